@@ -51,6 +51,20 @@ def seeds_expected(prop: str) -> list[dict]:
     return out
 
 
+def benign_expected(prop: str) -> list[dict]:
+    """Behaviour-preserving refactors (seeded_benign/, made by sub-agents, suite-passing, outputs identical) on which every check was silent when
+    seeded_benign/RESULTS.json was last generated: this property's check must stay silent on them."""
+    base = os.path.join(os.path.dirname(_seeds.SEEDED), "seeded_benign")
+    path = os.path.join(base, "RESULTS.json")
+    if not os.path.exists(path):
+        return []
+    out = []
+    for r in json.load(open(path)):
+        if r.get("property") == prop and not r.get("alarms") and "error" not in r:
+            out.append({"id": r["seed"], "dir": os.path.join(base, r["seed"]), "title": r.get("title"), "benign": True})
+    return out
+
+
 def _verdict(prop, root, ov):
     from check import decide_property as run_property
     rep = run_property(prop, "quick", root, overlay=ov)
@@ -69,6 +83,13 @@ def _one(job):
             ov = overlay(root, e)
             v, d = _verdict(prop, root, ov)
             return dict(id=f"{prop}-t-{e}", kind="benign", what=f"whole-package transformation `{e}`", outcome=v, detail=d, ok=(v == "silent"))
+        if kind == "benign-seed":
+            try:
+                ov = _seeds.overlay_of(e["dir"], root)
+            except _seeds.PatchStale as s:
+                return dict(id="refactor-" + e["id"], kind="benign", what=f"behaviour-preserving refactor {e['id']}: {str(e.get('title'))[:70]}", outcome="stale", detail=str(s)[:120], ok=None)
+            v, d = _verdict(prop, root, ov)
+            return dict(id="refactor-" + e["id"], kind="benign", what=f"behaviour-preserving refactor {e['id']}: {str(e.get('title'))[:70]}", outcome=v, detail=d, ok=(v == "silent"))
         if kind == "seed":
             try:
                 ov = _seeds.overlay_of(e["dir"], root)
@@ -96,6 +117,7 @@ def selftest(prop: str, root: str = "/repo", workers: int = 16) -> list[dict]:
     jobs = [("transform", prop, root, t) for t in TRANSFORMS]
     jobs += [("corpus", prop, root, e) for e in load_corpus(prop)]
     jobs += [("seed", prop, root, e) for e in seeds_expected(prop)]
+    jobs += [("benign-seed", prop, root, e) for e in benign_expected(prop)]
     with ProcessPoolExecutor(min(workers, max(1, len(jobs)))) as ex:
         return list(ex.map(_one, jobs))
 
